@@ -11,10 +11,15 @@ step popped and the entry it popped (`restore_stack_frame`).
   failed step (`RestoresExactly`), the next step fails with the same error and restores exactly
   again; `resume_any_number`: hence ANY number of `:resume`s answer with the same error, at the
   same node, with the failed step applied to the same receiver and arguments (the frames are equal).
-* `site_restores`: `RestoresExactly` is discharged by proof for every error site of
-  `Machine.dispatch` that satisfies `GoodSite`; the sites excluded by `GoodSite` are exactly the ones
-  where /repo HEAD does NOT restore exactly, each shown by a concrete witness
-  (`println_not_restored` …). For the built-in arms outside the model the regenerated table
+* `every_site_restores`: `RestoresExactly` is discharged by proof for EVERY error site of
+  `Machine.dispatch` (operators, let / assign / update, variable lookup, `if` / `while` / `for` /
+  `match`, calls of closures, functions, enum constructors, built-ins, non-callables), hence
+  `resume_same_error`: after ANY error step of the machine, any number of `:resume`s answer with the
+  same error and an unchanged call stack. (Before the `fix:` commits "failed built-in calls restore
+  the receiver before the arguments", "a failed if condition or match leaves the stack as it was",
+  "a failed for-loop step can be resumed" this failed at `println(1)`, `"a"(println)`, `if 1 {2}`,
+  `match 1 {…}`, `for x in 1 {…}`, `for (a, b) in [1] {…}`; those inputs are now positive examples.)
+  For the built-in arms outside the model the regenerated table
   (`Tables.builtinArms[*].restoreShapes`, tie (T)) is checked by `decide` (`builtin_arms_restore_shape`).
 -/
 set_option linter.unusedVariables false
@@ -121,27 +126,11 @@ theorem step_restores_of_site (s s' : State) (er : Err) (hc : Calm s) (h : step 
         have := hsite f' st' vals er' hd
         simp [setTop, hf, this, horig]
 
-/-- The error sites of `dispatch` that restore exactly. Everything NOT covered here fails on
-/repo HEAD and has a witness below:
-* a variable entry is always in state N when it is popped (`var`);
-* `if` / `match` in a partial state: the continuation `(E, if)` is pushed BEFORE the fallible
-  check, `match` also loses the scrutinee;
-* `for` in state PW: the index is not restored (non-list), or the `(PD, for)` continuation, the
-  next index and the list are pushed before the failing destructuring;
-* a call in state E whose receiver is `println`/`print` with one argument (type error restores
-  `[arg, receiver]`) or not callable at all ("Expected Function" restores `[args…, receiver]`). -/
-def GoodSite (f : Frame) (st : St) : Expr → Prop
+/-- The one side condition: a variable entry is popped in state N. (`eval_expr` leaves the state of a
+failing `Variable` untouched; the model writes that state as `N`, which is the only state a variable
+entry is ever pushed with.) -/
+def VarFresh (st : St) : Expr → Prop
   | .var .. => st = .N
-  | .ifE .. => st = .N ∨ st = .E
-  | .matchE .. => st = .N ∨ st = .E
-  | .forE .. => st ≠ .PW
-  | .call _ _ _ args => st = .E →
-      (match f.values[args.length]? with
-       | some (.closure ..) => True
-       | some (.fn _) => True
-       | some (.enumC ..) => True
-       | some (.builtin n) => args.length ≠ 1 ∨ (n ≠ "println" ∧ n ≠ "print")
-       | _ => False)
   | _ => True
 
 macro "site_auto" : tactic => `(tactic| (
@@ -153,13 +142,8 @@ macro "site_auto" : tactic => `(tactic| (
   all_goals (try (simp [restore_eq, Frame.pushE, Frame.pushVIf, Frame.pushV]))
   all_goals (try (cases ‹Frame›; simp_all))))
 
-theorem evalCall_restores (p : Program) (f : Frame) (e : Expr) (id : Nat) (used : Bool) (nargs : Nat)
-    (hg : match f.values[nargs]? with
-       | some (.closure ..) => True
-       | some (.fn _) => True
-       | some (.enumC ..) => True
-       | some (.builtin n) => nargs ≠ 1 ∨ (n ≠ "println" ∧ n ≠ "print")
-       | _ => False) :
+/-- Every error path of `eval_call` restores `[receiver, argₙ … arg₁]`: exactly what it popped. -/
+theorem evalCall_restores (p : Program) (f : Frame) (e : Expr) (id : Nat) (used : Bool) (nargs : Nat) :
     ∀ f' st' vals er, evalCall p f id used nargs = .err f' st' vals er →
       restore f' st' e vals = f.pushE .E e := by
   intro f' st' vals er h
@@ -173,58 +157,17 @@ theorem evalCall_restores (p : Program) (f : Frame) (e : Expr) (id : Nat) (used 
     cases vals0 with
     | nil => simp at h
     | cons recv vals1 =>
-      have hidx : f.values[nargs]? = some recv := by
-        rw [hpa.1, ← hpa.2]; simp
-      rw [hidx] at hg
       have hfin : ∀ (ff : Frame), ff = { f with values := vals1 } →
           restore ff .E e (recv :: args.reverse) = f.pushE .E e := by
         intro ff hff; subst hff
         simp [restore_eq, Frame.pushE]
         cases f; simp_all
       simp only at h
-      cases recv with
-      | closure env params body =>
-        simp only at h
-        split at h <;> simp at h
-        obtain ⟨h1, h2, h3, h4⟩ := h; subst h1 h2 h3 h4
-        exact hfin _ rfl
-      | fn name =>
-        simp only at h
-        split at h
-        · simp at h
-        · split at h <;> simp at h
-          obtain ⟨h1, h2, h3, h4⟩ := h; subst h1 h2 h3 h4
-          exact hfin _ rfl
-      | enumC ty idx =>
-        simp only at h
-        split at h
-        · simp at h
-          obtain ⟨h1, h2, h3, h4⟩ := h; subst h1 h2 h3 h4
-          exact hfin _ rfl
-        · split at h <;> simp at h
-      | builtin name =>
-        simp only at h
-        split at h
-        · simp at h
-          obtain ⟨h1, h2, h3, h4⟩ := h; subst h1 h2 h3 h4
-          exact hfin _ rfl
-        · rename_i hlen
-          simp at hlen
-          have hn : name ≠ "println" ∧ name ≠ "print" := by
-            rcases hg with hg | hg
-            · exact absurd (hpa.2 ▸ hlen) hg
-            · exact hg
-          split at h <;> simp_all
-      | int v => simp at hg
-      | str v => simp at hg
-      | list v => simp at hg
-      | tuple v => simp at hg
-      | enumV a b c => simp at hg
+      cases recv <;> simp only at h <;> (repeat' split at h) <;> (try (simp at h)) <;>
+        (try (obtain ⟨h1, h2, h3, h4⟩ := h; subst h1 h2 h3 h4; exact hfin _ rfl))
 
-/-- **Every good error site restores exactly** (operators, let / assign / update, variable
-lookup, `while` condition, invalid syntax, calls of closures / functions / enum constructors /
-built-ins with the wrong number of arguments). -/
-theorem site_restores (p : Program) (f : Frame) (st : St) (e : Expr) (hg : GoodSite f st e) :
+/-- **Every error site of `dispatch` restores exactly.** -/
+theorem every_site_restores (p : Program) (f : Frame) (st : St) (e : Expr) (hv : VarFresh st e) :
     SiteRestores p f st e := by
   cases e
   case call id u recv args =>
@@ -233,105 +176,101 @@ theorem site_restores (p : Program) (f : Frame) (st : St) (e : Expr) (hg : GoodS
     cases st
     case E =>
       simp only at h
-      exact evalCall_restores p f _ _ _ _ (hg rfl) f' st' vals er h
+      exact evalCall_restores p f _ _ _ _ f' st' vals er h
     all_goals simp at h
-  case var => simp [GoodSite] at hg; subst hg; site_auto
-  case ifE => simp [GoodSite] at hg; rcases hg with hg | hg <;> subst hg <;> site_auto
-  case matchE => simp [GoodSite] at hg; rcases hg with hg | hg <;> subst hg <;> site_auto
-  case forE => simp [GoodSite] at hg; cases st <;> simp at hg <;> site_auto
-  case int => clear hg; site_auto
-  case str => clear hg; site_auto
-  case lambda => clear hg; site_auto
-  case paren => clear hg; site_auto
-  case invalid => clear hg; site_auto
-  case unsup => clear hg; site_auto
-  case binop => clear hg; site_auto
-  case letE => clear hg; site_auto
-  case assign => clear hg; site_auto
-  case update => clear hg; site_auto
-  case whileE => clear hg; site_auto
-  case ret => clear hg; site_auto
-  case brk => clear hg; site_auto
-  case cont => clear hg; site_auto
-  case list => clear hg; site_auto
-  case tuple => clear hg; site_auto
+  case var => simp [VarFresh] at hv; subst hv; site_auto
+  case ifE => clear hv; cases st <;> site_auto
+  case matchE => clear hv; cases st <;> site_auto
+  case forE => clear hv; cases st <;> site_auto
+  case int => clear hv; site_auto
+  case str => clear hv; site_auto
+  case lambda => clear hv; site_auto
+  case paren => clear hv; site_auto
+  case invalid => clear hv; site_auto
+  case unsup => clear hv; site_auto
+  case binop => clear hv; site_auto
+  case letE => clear hv; site_auto
+  case assign => clear hv; site_auto
+  case update => clear hv; site_auto
+  case whileE => clear hv; site_auto
+  case ret => clear hv; site_auto
+  case brk => clear hv; site_auto
+  case cont => clear hv; site_auto
+  case list => clear hv; site_auto
+  case tuple => clear hv; site_auto
 
-/-- Corollary used by the examples: a run that stops at a good site answers every `:resume`
-with the same error and an unchanged call stack. -/
-theorem good_site_resume_same (fuel k : Nat) (s s' : State) (e : Err) (hc : Calm s)
-    (h : step s = .error s' e)
-    (hg : ∀ f callers st e0 rest, s.frames = f :: callers → f.exprs = (st, e0) :: rest →
-      GoodSite { f with exprs := rest } st e0) :
+/-- The entry on top of the current frame, if it is a variable, is in state N. -/
+def TopVarFresh (s : State) : Prop :=
+  ∀ f callers st e rest, s.frames = f :: callers → f.exprs = (st, e) :: rest → VarFresh st e
+
+/-- **C07 over the model.** After ANY error step of a calm session (any node kind, any frame,
+including the stack-limit error), every response to `eval`, `:resume` × k is the same error and the
+call stack — pending entry, receiver, arguments, everything — is the one the first failure saw. -/
+theorem resume_same_error (fuel k : Nat) (s s' : State) (e : Err) (hc : Calm s)
+    (h : step s = .error s' e) (hv : TopVarFresh s) :
     ∀ o ∈ resumes (fuel + 1) k s', ∃ s'', o = .error s'' e ∧ s''.frames = s.frames :=
   resume_any_number fuel e k s s' hc h
     (step_restores_of_site s s' e hc h (fun f callers st e0 rest hf he =>
-      site_restores s.prog _ st e0 (hg f callers st e0 rest hf he)))
+      every_site_restores s.prog _ st e0 (hv f callers st e0 rest hf he)))
 
--- ------------------------------------------------------------------ witnesses (/repo HEAD)
+-- ------------------------------------------------------------------ examples
 
 def start (e : Expr) : State := init { funs := [], enums := [], toplevel := [e] } [] none none
 
-/-- The hypotheses of `error_restore_fixpoint` are satisfiable: `1 + "a"` stops at a good site
-and three `:resume`s observe the same error at the same entry with the same stack sizes. -/
+/-- The hypotheses of `error_restore_fixpoint` are satisfiable: `1 + "a"` stops at an error and three
+`:resume`s observe the same error at the same entry with the same stack sizes. -/
 theorem binop_resume_example :
     observe 20 3 (start (.binop 3 true .add (.int 1 true 1) (.str 2 true "a"))) =
       [.error (.typeError "Int") (some (.E, 3)) 1 3, .error (.typeError "Int") (some (.E, 3)) 1 3,
        .error (.typeError "Int") (some (.E, 3)) 1 3, .error (.typeError "Int") (some (.E, 3)) 1 3] := by
   decide
 
-/-- NEGATION at the built-in type-error site (`println(1)`): the restore puts `[arg, receiver]`
-back, so the resumed step calls `1(println)` and reports "Expected Function". -/
-theorem println_not_restored :
+/-- `println(1)` (was: the resumed step reported "Expected Function"). -/
+theorem println_resume_example :
     observe 20 2 (start (.call 3 true (.var 1 true "println") [.int 2 true 1])) =
-      [.error (.typeError "String") (some (.E, 3)) 1 3, .error (.typeError "Function") (some (.E, 3)) 1 3,
+      [.error (.typeError "String") (some (.E, 3)) 1 3, .error (.typeError "String") (some (.E, 3)) 1 3,
        .error (.typeError "String") (some (.E, 3)) 1 3] := by
   decide
 
-/-- NEGATION at the "Expected Function" arm (`"a"(println)`): the restore swaps receiver and
-argument, so the resumed step calls `println("a")`, which succeeds and prints. -/
-theorem expected_function_not_restored :
+/-- `"a"(println)` (was: the resumed step ran `println("a")`). -/
+theorem expected_function_resume_example :
     observe 20 2 (start (.call 3 true (.str 1 true "a") [.var 2 true "println"])) =
-      [.error (.typeError "Function") (some (.E, 3)) 1 3, .value] := by
+      [.error (.typeError "Function") (some (.E, 3)) 1 3, .error (.typeError "Function") (some (.E, 3)) 1 3,
+       .error (.typeError "Function") (some (.E, 3)) 1 3] := by
   decide
 
-/-- NEGATION at `if` (`if 1 { 2 }`): the same error comes back, but every resume leaves one more
-stale `(E, if)` continuation on the frame (pending entries 2, 3, 4 …). -/
-theorem if_not_restored :
+/-- `if 1 { 2 }` (was: one more stale `(E, if)` entry per resume). -/
+theorem if_resume_example :
     observe 20 2 (start (.ifE 3 true (.int 1 true 1) [.int 2 true 2] none)) =
-      [.error (.typeError "Bool") (some (.PW, 3)) 2 2, .error (.typeError "Bool") (some (.PW, 3)) 3 2,
-       .error (.typeError "Bool") (some (.PW, 3)) 4 2] := by
+      [.error (.typeError "Bool") (some (.PW, 3)) 1 2, .error (.typeError "Bool") (some (.PW, 3)) 1 2,
+       .error (.typeError "Bool") (some (.PW, 3)) 1 2] := by
   decide
 
-/-- NEGATION at `match` (`match 1 { Some(x) => x }`): the scrutinee is not restored; the first
-resume matches on the frame's base value `Unit` (a different error), the second one finds the
-value stack empty and eval.rs panics. -/
-theorem match_not_restored :
+/-- `match 1 { Some(x) => x }` (was: a different error, then an eval.rs panic). -/
+theorem match_resume_example :
     observe 20 3 (start (.matchE 3 true (.int 1 true 1) [.mk "Some" (some (.sym "x")) [.var 2 true "x"]])) =
-      [.error .notEnum (some (.PW, 3)) 2 1, .error .noMatch (some (.PW, 3)) 3 0,
-       .panic "Popped an empty value stack for match"] := by
+      [.error .notEnum (some (.PW, 3)) 1 2, .error .notEnum (some (.PW, 3)) 1 2,
+       .error .notEnum (some (.PW, 3)) 1 2, .error .notEnum (some (.PW, 3)) 1 2] := by
   decide
 
-/-- NEGATION at `for` over a non-list (`for x in 1 { 2 }`): the index is not restored; the first
-resume takes the frame's base value as the index and hits `unreachable!`. -/
-theorem for_not_restored :
-    observe 20 3 (start (.forE 3 true (.sym "x") (.int 1 true 1) [.int 2 true 2])) =
-      [.error (.typeError "List") (some (.PW, 3)) 1 2,
-       .panic "`for` loop index should always be an `Int`"] := by
+/-- `for x in 1 { 2 }` (was: `unreachable!` on the first resume). -/
+theorem for_resume_example :
+    observe 20 2 (start (.forE 3 true (.sym "x") (.int 1 true 1) [.int 2 true 2])) =
+      [.error (.typeError "List") (some (.PW, 3)) 1 3, .error (.typeError "List") (some (.PW, 3)) 1 3,
+       .error (.typeError "List") (some (.PW, 3)) 1 3] := by
   decide
 
-/-- NEGATION at `for` with a failing destructuring (`for (a, b) in [1] { 2 }`): the `(PD, for)`
-continuation, the next index and the list were already pushed; the resume panics likewise. -/
-theorem for_destructure_not_restored :
-    observe 20 3 (start (.forE 3 true (.destr ["a", "b"]) (.list 4 true [.int 1 true 1]) [.int 2 true 2])) =
-      [.error (.typeError "Tuple") (some (.PW, 3)) 2 4,
-       .panic "`for` loop index should always be an `Int`"] := by
+/-- `for (a, b) in [1] { 2 }` (was: `unreachable!` on the first resume). -/
+theorem for_destructure_resume_example :
+    observe 20 2 (start (.forE 3 true (.destr ["a", "b"]) (.list 4 true [.int 1 true 1]) [.int 2 true 2])) =
+      [.error (.typeError "Tuple") (some (.PW, 3)) 1 3, .error (.typeError "Tuple") (some (.PW, 3)) 1 3,
+       .error (.typeError "Tuple") (some (.PW, 3)) 1 3] := by
   decide
 
 -- ------------------------------------------------------------------ built-in arms: tie (T)
 
 /-- Arms of `eval_built_in_call` / `eval_built_in_method_call` whose error paths are allowed to
-build `saved_values` in another order than `[receiver, argₙ … arg₁]`. Empty on the tree with
-`resume-fix-restore-order.diff` (every arm is `receiverFirst`). -/
+build `saved_values` in another order than `[receiver, argₙ … arg₁]`: none. -/
 def knownBad : List String := []
 
 def shapeOk (sh : String) : Bool := sh == "receiverFirst" || sh == "argsOnly"
